@@ -256,6 +256,12 @@ def run(chk, db, tier):
     chk.guard("R1", rule_r1b, db, conf)
     chk.guard("R2", rule_r2, db, conf)
     chk.guard("R3", rule_r3, db, conf)
+    # prerequisite: the backend relies on bucket names / keys having passed the adapter's validation in both addressing styles (decided for C12)
+    from . import c12
+    from ..report import Sub
+    sub = Sub(chk, "C12")
+    sub.rule("R3", "both S3Path parsers build Bucket/Object only from values that passed check_bucket_name / check_key")
+    sub.guard("R3", c12.rule_r3, db)
 
 
 META = {
